@@ -85,6 +85,37 @@ def handle (args : List String) : Option String :=
     -- C08: the model is a pure function of (universe, world); `C08.schedule_independent` and
     -- `history_independent` say the caches cannot change that — the only admissible answer
     some "consistent\tconsistent\t-"
+  | "r.one" :: con :: self :: narch :: rest =>
+    -- ResolvePackage(con, no disqualifications): the accepted candidates as a sorted id list.
+    -- Oracle: the verdict on a candidate depends on that candidate alone (`C02.filter_local`), so Go's
+    -- answer must contain exactly the candidates of the name that `acceptsOne` accepts.
+    match readArchs narch.toNat! rest with
+    | some (archs, [go]) =>
+      match lookupT archs (str self) with
+      | none => some "bad-arch\tfail:bad-arch\tunlisted"
+      | some u =>
+        let c := cfgOf u
+        let pc := parseConstraint (str con)
+        let impl := match candidates c (str con) [] with
+          | none => "err"
+          | some l => "ok " ++ ",".intercalate (((l.map (·.id)).mergeSort (fun a b => decide (a ≤ b))).map toString)
+        let pool := if hasName c.u pc.name then c.nm pc.name else []
+        let want := pool.filter (acceptsOne [] pc.version pc.dep [] pc.pin none)
+        if go = "err" then
+          match want with
+          | [] => some (impl ++ "\tpass\t-")
+          | p :: _ => some (impl ++ "\tfail:rejected:" ++ toString p.id ++ "\tunlisted")
+        else if go.startsWith "ok " then
+          let body := (go.drop 3).toString
+          let ids := if body.isEmpty then [] else (body.splitOn ",").map String.toNat!
+          match pool.find? (fun p => ids.contains p.id != acceptsOne [] pc.version pc.dep [] pc.pin none p) with
+          | some p => some (impl ++ "\tfail:" ++ (if ids.contains p.id then "accepted:" else "rejected:") ++ toString p.id ++ "\tunlisted")
+          | none =>
+            match ids.find? (fun i => !(pool.any fun p => p.id = i)) with
+            | some i => some (impl ++ "\tfail:foreign:" ++ toString i ++ "\tunlisted")
+            | none => some (impl ++ "\tpass\t-")
+        else some (impl ++ "\tfail:bad-answer\tunlisted")
+    | _ => some "bad-universe\tfail:bad-universe\tunlisted"
   | op :: world :: self :: narch :: rest =>
     if op != "r.resolve" && op != "r.avail" && op != "r.corr" && op != "r.corr-any-err" then none else
     match readArchs narch.toNat! rest with
